@@ -23,7 +23,7 @@
     What the model cannot exhibit: the real scheduler and allocator - the supervised correspondence
     run (real code under a watchdog with a memory limit) observes those
     (the real code is run under a watchdog; the model under fuel 80 + 10*len + 10*size). *)
-From Tephra Require Import MetricsSpec CLexer LexerFacts Run Peg RunCore RunRecover RunTotal RunLoops RunFuel RunSafe RunTerm.
+From Tephra Require Import MetricsSpec CLexer LexerFacts Run Peg RunCore RunRecover RunTotal RunLoops RunFuel RunSafe RunTerm RunMono.
 
 Theorem C02_core_fuel_suffices :
   forall m, 1 <= tabw m -> forall t, wf_text t ->
@@ -151,6 +151,20 @@ Theorem C02_progress_satisfiable :
   forall m, 1 <= tabw m -> forall t, wf_text t -> (forall k, progress m t (GOne k)) /\ (forall p, progress m t (GPred p)).
 Proof. intros m Htab t Ht. split; [exact (progress_one m Htab t Ht)|exact (progress_pred m Htab t Ht)]. Qed.
 Print Assumptions C02_progress_satisfiable.
+
+(** fuel is only a bound: an answer other than RFuel is the answer at every larger fuel, so the
+    result of a parse does not depend on how much fuel was given (every grammar, lexer, context,
+    store - no hypothesis at all) *)
+Theorem C02_answer_independent_of_fuel :
+  forall f d g lx c st, fst (run f g lx c st) <> RFuel -> run (f + d) g lx c st = run f g lx c st.
+Proof. exact fuel_monotone. Qed.
+Print Assumptions C02_answer_independent_of_fuel.
+
+Theorem C02_answer_unique :
+  forall f f' g lx c st,
+  fst (run f g lx c st) <> RFuel -> fst (run f' g lx c st) <> RFuel -> run f g lx c st = run f' g lx c st.
+Proof. exact answer_unique. Qed.
+Print Assumptions C02_answer_unique.
 
 (** concrete: stabilize(one b) on "a" without recover state and with one: both end at once *)
 Example C02_example :
